@@ -92,7 +92,8 @@ struct lin_prophecy {
   double acos_ret;
 } P;
 struct lin_record {
-  int nsqrt, natan2, nacos;
+  int nsqrt, natan2, nacos, nsin, ncos;
+  double sin_arg[2], cos_arg[2];
   double sqrt_arg[2];
   double atan2_y[2], atan2_x[2];
   double acos_arg;
@@ -124,17 +125,21 @@ double lin_atan2(double y, double x)
 }
 double lin_sin(double x)
 {
-  if (G.natan2 >= 1 && x == BRG(0)) return P.S[0];
-  if (G.natan2 >= 2 && x == BRG(1)) return P.S[1];
-  __CPROVER_assert(0, "sin is applied to a bearing computed by bearing_distance");
-  return 0;
+  __CPROVER_assert(G.nsin < 2, "at most two sin calls per linearization");
+  double r = P.S[G.nsin];
+  __CPROVER_assume(-1 <= r && r <= 1); /* assumed libm contract */
+  G.sin_arg[G.nsin] = x;
+  G.nsin++;
+  return r;
 }
 double lin_cos(double x)
 {
-  if (G.natan2 >= 1 && x == BRG(0)) return P.C[0];
-  if (G.natan2 >= 2 && x == BRG(1)) return P.C[1];
-  __CPROVER_assert(0, "cos is applied to a bearing computed by bearing_distance");
-  return 0;
+  __CPROVER_assert(G.ncos < 2, "at most two cos calls per linearization");
+  double r = P.C[G.ncos];
+  __CPROVER_assume(-1 <= r && r <= 1); /* assumed libm contract */
+  G.cos_arg[G.ncos] = x;
+  G.ncos++;
+  return r;
 }
 double lin_acos(double x)
 {
@@ -174,7 +179,7 @@ bool AngularObservations_right_handed_angles(const struct PointData *self);
 #define CMAX 1e9
 #define FIN(v, m) (-(m) <= (v) && (v) <= (m)) /* finite and bounded (false for NaN) */
 #define COORDS_OK(p) (FIN((p)->x_, CMAX) && FIN((p)->y_, CMAX) && FIN((p)->z_, CMAX))
-#define GHOST_RESET (G.nsqrt == 0 && G.natan2 == 0 && G.nacos == 0 && G.j1 == 0 && G.j2 == 0 && gv_exc == 0)
+#define GHOST_RESET (G.nsqrt == 0 && G.natan2 == 0 && G.nacos == 0 && G.nsin == 0 && G.ncos == 0 && G.j1 == 0 && G.j2 == 0 && gv_exc == 0)
 #define SHAPE(L, o)                                                                                         \
   (__CPROVER_rw_ok((L), sizeof(struct LocalLinearization)) && __CPROVER_rw_ok((L)->PD, sizeof(struct PointData)) && \
    __CPROVER_r_ok((o), sizeof(struct Observation)) && !SAME((L), (L)->PD) && !SAME((o), (L)) && !SAME((o), (L)->PD) && \
@@ -182,7 +187,11 @@ bool AngularObservations_right_handed_angles(const struct PointData *self);
 #define SHAPE1(L, o) (SHAPE(L, o) && COORDS_OK(F0))
 #define SHAPE2(L, o) (SHAPE(L, o) && (o)->to_ == 1 && COORDS_OK(F0) && COORDS_OK(T0))
 #define SHAPE3(L, o) (SHAPE2(L, o) && (o)->fs_ == 2 && COORDS_OK(S0))
-#define NONSING(i) (P.sqrt_ret[i] >= 1e-6 && P.sqrt_ret[i] <= 1e10) /* non-singular: points >= 1 um apart */
+/* non-singular: points >= 1 um apart (bearing_distance returns d = 0 below that).  Written as the NEGATION of the
+   comparison bearing.cpp makes so that an SMT solver propagates it as a literal. */
+#define NONSING(i) (!(P.sqrt_ret[i] < 1e-6) && P.sqrt_ret[i] <= 1e10)
+/* sin and cos were applied to the bearing of call #i */
+#define TRIG_OF(i) (G.sin_arg[i] == BRG(i) && G.cos_arg[i] == BRG(i))
 #define TRIG(i) (FIN(P.S[i], 1.0) && FIN(P.C[i], 1.0) && FIN(P.atan2_ret[i], M_PI))
 
 /* unknowns as (used, index-lvalue) pairs.  `used`: the observation depends on this unknown */
@@ -394,7 +403,7 @@ __CPROVER_ensures(BEARING_OF(0, F0, T0))
 __CPROVER_ensures(self->rhs == (VALUE(obs) - P.sqrt_ret[0]) * 1e3)
 __CPROVER_ensures(COEF_(U_FY, -P.S[0]) && COEF_(U_FX, -P.C[0]) && COEF_(U_TY, P.S[0]) && COEF_(U_TX, P.C[0]))
 #else
-__CPROVER_ensures(gv_exc == 0 && G.nsqrt == 1 && G.natan2 == 1)
+__CPROVER_ensures(gv_exc == 0 && G.nsqrt == 1 && G.natan2 == 1 && G.nsin == 1 && G.ncos == 1 && TRIG_OF(0))
 __CPROVER_ensures(POST_ROW(ALL4, SUM4, U_FX, U_FY, U_TX, U_TY))
 #endif
 //@ entry LocalLinearization_distance
@@ -410,7 +419,8 @@ __CPROVER_requires(__CPROVER_rw_ok(SP(obs), sizeof(struct StandPoint)) && !SAME(
 __CPROVER_requires(FIN(SP(obs)->attr_or, 1e12))
 #define RAW_direction ((VALUE(obs) + SP(obs)->attr_or - BRG(0)) * R2CC)
 #if LIN_VALUES
-__CPROVER_requires(SP(obs)->test_or ==> RAW_OK(RAW_direction)) /* stated precondition, used through LIN_INST_RAW */
+__CPROVER_requires(SP(obs)->test_or) /* the exception path is covered by the structure check */
+__CPROVER_requires(RAW_OK(RAW_direction)) /* stated precondition, used through LIN_INST_RAW */
 #endif
 __CPROVER_requires(PRE_UNK5(U_OR, U_FX, U_FY, U_TX, U_TY))
 __CPROVER_assigns(self->rhs, self->size, self->maxn, self->coeff, self->index, G, gv_exc, SP(obs)->indx_or,
@@ -423,7 +433,7 @@ __CPROVER_ensures(gv_exc == 0 ==> (COEF_(U_FY, -(KANG(P.sqrt_ret[0]) * P.C[0])) 
 __CPROVER_ensures(gv_exc == 0 ==> (COEF_(U_TY, KANG(P.sqrt_ret[0]) * P.C[0]) && COEF_(U_TX, -(KANG(P.sqrt_ret[0]) * P.S[0]))))
 #else
 __CPROVER_ensures((gv_exc == 0) == (SP(obs)->test_or != 0))
-__CPROVER_ensures(G.nsqrt == 1 && G.natan2 == 1)
+__CPROVER_ensures(G.nsqrt == 1 && G.natan2 == 1 && G.nsin == 1 && G.ncos == 1 && TRIG_OF(0))
 __CPROVER_ensures(gv_exc == 0 ==> REDUCED(self))
 __CPROVER_ensures(gv_exc == 0 ==> POST_ROW(ALL5, SUM5, U_OR, U_FX, U_FY, U_TX, U_TY))
 #endif
